@@ -44,6 +44,7 @@ Patterns == {
     [kind |-> "dir",   dirs |-> <<"gen">>, stem |-> "", ext |-> ""],          \* gen/
     [kind |-> "dir",   dirs |-> <<"sub">>, stem |-> "", ext |-> ""],          \* sub/
     [kind |-> "dir",   dirs |-> <<".hid">>, stem |-> "", ext |-> ""],         \* .hid/
+    [kind |-> "dirpath", dirs |-> <<"src", "sub">>, stem |-> "", ext |-> ""], \* src/sub/  (that directory, not every `sub`)
     [kind |-> "ext",   dirs |-> <<>>, stem |-> "", ext |-> "ts"],             \* *.ts
     [kind |-> "ext",   dirs |-> <<>>, stem |-> "", ext |-> "txt"],            \* *.txt
     [kind |-> "ext2",  dirs |-> <<>>, stem |-> "min", ext |-> "ts"],          \* *.min.ts (like *.d.ts, *.generated.py)
@@ -76,7 +77,7 @@ MatchesA(p, f) ==
       [] p.kind = "ext"   -> f.ext = p.ext
       [] p.kind = "ext2"  -> f.ext = p.ext /\ <<f.stem, p.stem>> \in StemEndsWith
       [] p.kind = "exact" -> f.dirs = p.dirs /\ f.stem = p.stem /\ f.ext = p.ext
-      [] p.kind = "tree"  -> IsPrefix(p.dirs, f.dirs)
+      [] p.kind \in {"tree", "dirpath"} -> IsPrefix(p.dirs, f.dirs)
       [] p.kind = "any"   -> f.stem = p.stem /\ f.ext = p.ext /\ Len(f.dirs) >= 1
 Unspecified(p, f) == p.kind = "any" /\ f.stem = p.stem /\ f.ext = p.ext /\ Len(f.dirs) = 0
 
@@ -104,7 +105,7 @@ MatchesB(p, f) ==
       [] p.kind = "ext"   -> f.ext = p.ext
       [] p.kind = "ext2"  -> f.ext = p.ext /\ <<f.stem, p.stem>> \in StemEndsWith
       [] p.kind = "exact" -> f.dirs = p.dirs /\ f.stem = p.stem /\ f.ext = p.ext
-      [] p.kind = "tree"  -> IsPrefix(p.dirs, f.dirs)
+      [] p.kind \in {"tree", "dirpath"} -> IsPrefix(p.dirs, f.dirs)
       [] p.kind = "any"   -> f.stem = p.stem /\ f.ext = p.ext /\ Len(f.dirs) >= 1
 LintedB(P, t, r) == {f \in WalkCollect(t, r) : ~HardExcludedB(f) /\ ~\E p \in P : MatchesB(p, f)}
 
